@@ -144,8 +144,8 @@ pub fn run(ctx: &Ctx) -> Outcome {
     out.absorb(tape_search(ctx, "tape", &cfg, check, describe));
     // proptest's own string strategies
     if !out.failed() {
-        let cases = ctx.tier.pick(6_000u32, 500_000);
-        let shards = ctx.tier.pick(4usize, 16);
+        let cases = ctx.tier.pick(60_000u32, 500_000);
+        let shards = 16usize;
         let results: Vec<(Stats, Option<Failure>)> = std::thread::scope(|sc| {
             let hs: Vec<_> = (0..shards)
                 .map(|sh| {
